@@ -93,7 +93,7 @@ STAT_OPS = ["hs", "hs_notail", "hrms", "tm01", "tm02", "dm", "dspr", "tp", "tp_r
             "alpha", "gamma", "momf2", "uss", "uss_x", "mss", "oned", "to_energy", "momd", "fdspr", "stats_dict"]
 TRANSFORM_OPS = ["smooth33", "smooth35", "interp_fd", "interp_like", "rotate45", "rotate_m20", "split_f", "split_fd", "scale_by_hs"]
 RULE_PART_OPS = ["ptm4", "ptm5", "bbox"]
-WATERSHED_OPS = ["ptm1", "ptm2", "ptm3", "ptm1_smooth"]
+WATERSHED_OPS = ["ptm1", "ptm2", "ptm3", "ptm1_smooth", "ptm2_smooth", "ptm3_smooth"]
 ALL_OPS = STAT_OPS + TRANSFORM_OPS + RULE_PART_OPS + WATERSHED_OPS
 # iterative least-squares fits (results compared at 1e-4: float32 outputs of an optimiser) and the dispersion helpers
 FIT_OPS = ["fit_jonswap", "fit_gaussian", "celerity", "wavelen"]
@@ -136,9 +136,9 @@ def call(da, op, ds_accessor=False):
         return s.split(fmin=0.1, fmax=0.3, dmin=40.0, dmax=200.0)
     if op == "scale_by_hs":
         return s.scale_by_hs("0.5*hs+1", hs_min=1.0)
-    if op not in ("ptm1", "ptm1_smooth", "ptm2", "ptm3", "ptm4", "ptm5", "bbox", "ptm1_track"):
+    if op not in ("ptm1", "ptm1_smooth", "ptm2", "ptm2_smooth", "ptm3", "ptm3_smooth", "ptm4", "ptm5", "bbox", "ptm1_track"):
         return getattr(s, op)()
-    w = wind_args(da) if op in ("ptm1", "ptm1_smooth", "ptm2", "ptm4") else None
+    w = wind_args(da) if op in ("ptm1", "ptm1_smooth", "ptm2", "ptm2_smooth", "ptm4") else None
     if op == "ptm1_track":
         # tracking needs real time stamps: three-hourly records
         stamps = np.datetime64("2020-01-01T00:00:00") + (np.arange(da.sizes["time"]) * 10800).astype("timedelta64[s]")
@@ -156,6 +156,10 @@ def call(da, op, ds_accessor=False):
         return s.partition.ptm1(w["wspd"], w["wdir"], w["dpt"], swells=2, smooth=True)
     if op == "ptm2":
         return s.partition.ptm2(w["wspd"], w["wdir"], w["dpt"], swells=2)
+    if op == "ptm2_smooth":
+        return s.partition.ptm2(w["wspd"], w["wdir"], w["dpt"], swells=2, smooth=True)
+    if op == "ptm3_smooth":
+        return s.partition.ptm3(parts=3, smooth=True, freq_window=3, dir_window=3)
     if op == "ptm3":
         return s.partition.ptm3(parts=3)
     if op == "ptm4":
